@@ -312,7 +312,8 @@ def _case(root: Path, case: dict) -> dict:
         if res["kind"] == "ok" and case.get("judge", True):
             from concurrent.futures import ThreadPoolExecutor
             with ThreadPoolExecutor(2) as pool:
-                cx = judges.judge_cpp_tree(out, root / "tu", pool, [out / "cpp", out / "jni"], [out / "cpp", out / "jni"], [out / "cpp", out / "jni"])
+                srcs = [out / "cpp", out / "jni"] if case.get("judge_sources", True) else []
+                cx = judges.judge_cpp_tree(out, root / "tu", pool, [out / "cpp", out / "jni"], srcs, [out / "cpp", out / "jni"])
             res["cxx_jobs"] = int(cx.pop("__count__")[0])
             res["cxx"] = cx
             res["javac"] = judges.javac_tree(out / "java", root / "jv")
@@ -433,6 +434,36 @@ def closed_program(r: random.Random) -> str:
     return body
 
 
+KW_POOL = ["delete", "new", "class", "default", "register", "native", "final", "int", "null", "operator", "template", "this",
+           "transient", "volatile", "goto", "const", "friend", "typename", "synchronized", "package", "import", "abstract", "id", "self",
+           "nil", "super", "bool", "char", "event", "internal", "ref", "namespace", "interface", "auto", "union"]
+
+
+def keyword_program(r: random.Random) -> str:
+    """the same target-language keyword as identifier in two or three different roles (a harmless role first):
+    the outcome must be the documented invalid-identifier diagnostic, or code that compiles"""
+    kw = r.choice(KW_POOL)
+    idl_reserved = {"namespace", "interface", "const", "import", "main", "static", "enum", "flags", "record", "function", "property", "async", "error", "throws", "deriving"}
+    if kw in idl_reserved:
+        kw = "delete"
+    roles = {
+        "enum_item": f"e_{{n}} = enum {{ {kw}; other; }}",
+        "flag": f"f_{{n}} = flags {{ {kw}; other; }}",
+        "type": f"{kw} = record {{ a: i32; }}",
+        "field": f"r_{{n}} = record {{ {kw}: i32; b: string; }}",
+        "method": f"i_{{n}} = interface +cpp {{ {kw}(a: i32); }}",
+        "param": f"j_{{n}} = interface +cpp {{ m({kw}: i32) -> i32; }}",
+        "error_code": f"er_{{n}} = error {{ {kw}; other(a: i32); }}",
+        "error_param": f"es_{{n}} = error {{ c({kw}: i32); }}",
+        "fn_param": f"fn_{{n}} = function ({kw}: i32) -> bool;",
+    }
+    picks = r.sample(sorted(roles), r.choice([2, 2, 3]))
+    if "type" in picks:
+        picks.remove("type")
+        picks.insert(r.randrange(len(picks) + 1), "type")
+    return "\n".join(roles[k].replace("{n}", str(i)) for i, k in enumerate(picks))
+
+
 def config(r: random.Random | None):
     v = {"support_lib_sources": True}
     if r is not None and r.random() < 0.5:
@@ -465,9 +496,12 @@ def run(ctx):
     names = list(SHAPES) if not ctx.quick else list(SHAPES)
     for n in names:
         cases.append({"name": "shape:" + n, "text": SHAPES[n][0], "expect": SHAPES[n][1], "config": config(None), "targets": TARGETS})
-    for i in range(ctx.n(16, 400)):
+    for i in range(ctx.n(12, 400)):
         r = random.Random(f"{ctx.seed}/c01/{i}")
         cases.append({"name": f"random:{i}", "text": closed_program(r), "expect": None, "config": config(r), "targets": TARGETS})
+    for i in range(ctx.n(10, 150)):
+        r = random.Random(f"{ctx.seed}/c01/kw/{i}")
+        cases.append({"name": f"keyword:{i}", "text": keyword_program(r), "expect": None, "config": config(r), "targets": ["cpp", "java"], "judge_sources": False})
     results = run_cases(ctx.tmp, cases)
     reqs = [front.front_request({"/w/m.djinni": c["text"]}, "/w/m.djinni") for c in cases]
     answers = ctx.driver.batch([{**q, "op": "c01.deps"} for q in reqs])
